@@ -83,6 +83,10 @@ class Report:
         """run one rule function; an idiom it cannot classify is an analysis
         error of that rule only and never masks violations found by others"""
         from .loader import AnalysisError
+        prog = getattr(args[0], 'prog', None) if args else None
+        if prog is not None:
+            prog.accessed = []
+        start = len(self.obligations)
         try:
             fn(*args, **kw)
         except AnalysisError as ex:
@@ -91,6 +95,20 @@ class Report:
             import traceback
             tb = traceback.extract_tb(ex.__traceback__)[-1]
             self.errors.append('%s: internal error %s: %s (%s:%d)' % (fn.__name__, type(ex).__name__, ex, tb.filename.split('/')[-1], tb.lineno))
+        finally:
+            # a finding about a function that leans on machinery the analysis does not see through (new helpers, classes, tables of
+            # callables that the loader could not fold back) is not a verdict: the rule saw only part of what the function does
+            if prog is not None and any(not o.holds for o in self.obligations[start:]):
+                unseen = {}
+                for f in prog.accessed:
+                    for nm in prog.unseen_machinery(f):
+                        unseen.setdefault(f.qualname, []).append(nm)
+                if unseen:
+                    bad = [o for o in self.obligations[start:] if not o.holds]
+                    self.obligations[start:] = [o for o in self.obligations[start:] if o.holds]
+                    what = '; '.join('%s uses %s' % (q, ', '.join(sorted(set(v)))) for q, v in sorted(unseen.items()))
+                    self.errors.append('%s: not analysed: %s -- new since the tree was read and not folded back by the loader; %d finding(s) of this rule (%s) are therefore not verdicts'
+                                       % (fn.__name__, what, len(bad), ', '.join(sorted({o.rule for o in bad}))))
 
     def note(self, key, value):
         self.notes[key] = value
